@@ -44,8 +44,11 @@ def schedule(rng, names, n_ops, faults=False, ticks=False):
 
 def scenario(rng, n_inst=None, n_ops=None, faults=False, ticks=False, cache=1000, phens=None):
     names = ['A', 'B', 'C'][:n_inst or rng.choice((2, 2, 3))]
-    return {'names': names, 'phens': phens or rng.choice(FAMILIES), 'cache': cache,
-            'ops': schedule(rng, names, n_ops or rng.randint(8, 40), faults, ticks) + ['heal']}
+    sc = {'names': names, 'phens': phens or rng.choice(FAMILIES), 'cache': cache,
+          'ops': schedule(rng, names, n_ops or rng.randint(8, 40), faults, ticks) + ['heal']}
+    if rng.random() < 0.2:
+        sc['bomb'] = [n for n in names if rng.random() < 0.6]     # a failing sink behind some deciders (cluster.Bomb)
+    return sc
 
 
 def conflict_family():
@@ -338,6 +341,31 @@ def change_during_resync_family():
                         ops += ['sync', f'tick {silence}']
                     ops += [f'passi A send:B {during}'] + [f'del A {o}' for o in names[1:]] * 2 + ['tick 1', 'sync', 'tick 6', 'sync', 'heal']
                     yield {'names': names, 'phens': CONFLICT, 'cache': 1000, 'ops': ops}
+
+
+def change_during_backlog_retry_family():
+    """a pass of the outgoing loop that starts with NOTHING new -- it only retries the backlogs of two peers whose links had
+    failed -- and the engine thread publishes a local change while the send to one of them is in progress: whichever peer's
+    turn comes next, the change reaches BOTH (with that pass, or the next), nobody stays behind for good.  Default and short
+    periods; the change advances, completes or halts the run."""
+    names = ['A', 'B', 'C']
+    for periods, wait in ((None, 6), (dict(SMALL_PERIODS), 2)):
+        for during in ('in_A_1', 'in_A_1;in_A_2', 'in_A_9', 'in_A_1;in_A_2;in_A_3'):
+            for at in ('send:B', 'send:C'):
+                for down in (('B', 'C'), ('B',), ('C',)):
+                    ops = ['sync', 'in A 0', 'sync']
+                    ops += [f'down A {d}' for d in down] + ['in A 1' if during == 'in_A_9' else 'in A 4', 'pass A']
+                    ops += [f'del A {o}' for o in names[1:] if o not in down]
+                    ops += [f'up A {d}' for d in down] + [f'tick {wait}']
+                    ops += [f'passi A {at} {during}'] + ['del A B', 'del A C'] * 2
+                    # healthy links for two minutes: pings keep everybody in contact, no resync comes to the rescue
+                    for _ in range(8):
+                        ops += ['tick 3', 'pass A', 'del A B', 'del A C', 'pass B', 'del B A', 'del B C', 'pass C', 'del C A', 'del C B']
+                    ops += ['heal']
+                    sc = {'names': names, 'phens': CONFLICT, 'cache': 1000, 'ops': ops}
+                    if periods:
+                        sc['periods'] = periods
+                    yield sc
 
 
 def racing_engine_family():
